@@ -18,3 +18,21 @@
 //@ ensures#the_request_handler_is_started_as_a_task_of_its_own [C17,C06]
       final(d).spawned == old(d).spawned + 1
 //@ end
+
+//@ fn cln_plugin::PluginDriver::dispatch_one#request_lookup
+//@ implicit [C06,C17]
+//@ ensures#a_request_reaches_the_handler_registered_for_its_own_method_with_its_own_params [C17,C06]
+//    the handler is the one registered under exactly the request's `method` (setconfig: the
+//    setconfig handler), the params are the request's own `params`; anything else is an error
+      match (if jget(*request, "method"@) is Some { jstr(jget(*request, "method"@)->0) } else { None }) {
+          None => r is Err,
+          Some(name) => {
+              let cb = if name == "setconfig"@ { self.setconfig_callback }
+                       else if self.rpcmethods.has(name) { Some(self.rpcmethods.at(name)) } else { None };
+              match (cb, jget(*request, "params"@)) {
+                  (Some(f), Some(p)) => r is Ok && *(r->Ok_0).0 == f && (r->Ok_0).1 == p,
+                  _ => r is Err,
+              }
+          },
+      }
+//@ end
